@@ -23,6 +23,7 @@ Definition calls : list (string * list string) := [].
 Definition shared_writes : list swrite := [].
 Definition unclassified : list swrite := [].
 Definition results_shared : list swrite := [].
+Definition ambient_reads : list swrite := [].
 Definition globals_read : list string := [].
 Definition external_globals_read : list string := [].
 Definition w_analysed : list string := [].
@@ -32,6 +33,7 @@ Definition w_calls : list (string * list string) := [].
 Definition w_shared_writes : list swrite := [].
 Definition w_unclassified : list swrite := [].
 Definition w_results_shared : list swrite := [].
+Definition w_ambient_reads : list swrite := [].
 Definition m_analysed : list string := [].
 Definition m_missing : list string := [].
 Definition m_reachable : list string := [].
@@ -39,6 +41,7 @@ Definition m_calls : list (string * list string) := [].
 Definition m_shared_writes : list swrite := [].
 Definition m_unclassified : list swrite := [].
 Definition m_results_shared : list swrite := [].
+Definition m_ambient_reads : list swrite := [].
 Definition m_globals_read : list string := [].
 Definition m_external_globals_read : list string := [].
 Definition m_receiver_writes : list swrite := [].
@@ -78,7 +81,7 @@ def _c19_regen(repo=None):
         rf = os.path.join(root, "build", "effects", "report.txt" if repo == "/repo" else "report-scratch.txt")
         if os.path.exists(rf):
             rep = open(rf).read()
-        bad = [l for l in rep.splitlines() if l.startswith(("SHARED-WRITE", "UNCLASSIFIED", "MISSING", "RESULT-ALIASES"))] + \
+        bad = [l for l in rep.splitlines() if l.startswith(("SHARED-WRITE", "UNCLASSIFIED", "MISSING", "RESULT-ALIASES", "PANIC-VALUE-ALIASES", "AMBIENT-STATE"))] + \
               [l for l in rep.splitlines() if l.startswith("GLOBAL-WRITER")]
         _c19_state["report"] = "effect model regenerated from %s:\n%s" % (repo, "\n".join(bad)[:2400])
     if repo != "/repo" and not _c19_state["restore"]:
@@ -104,7 +107,8 @@ CFG = {
            'bitmap/get.go', 'bitmap/fromstr32.go', 'bitmap/fmt.go', 'bitmap/builder.go', 'bitmap/tailbitmap.go', 'bitmap/of.go', 'bmtree/index.go', 'bmtree/allpaths.go', 'bmtree/decode.go',
            'bitstr/bitstr.go', 'bitword/bitword.go', 'sigbits/sigbits.go', 'sigbits/firstdiff.go', 'sigbits/sharding.go',
            'sigbits/countprefixes.go', 'sigbits/sigbits_countprefixes.go'],
- 'go': {'c19.Batch': 'a mixed batch of the listed functions run from T goroutines over shared inputs (harness/c19.go)'},
+ 'go': {'c19.Batch': 'a mixed batch of the listed functions run from T goroutines over shared inputs (harness/c19.go)',
+        'c19.BigKeys': 'sigbits.FirstDiffBits / New / CountPrefixes over >= 2^18 shared counter keys from T goroutines vs the digest alone under GOMAXPROCS(1)'},
  'regen': _c19_regen,
  'obligation_report': _c19_report,
  'runs': [{'tags': 'verif'}, {'tags': 'verif', 'race': True}],
@@ -115,10 +119,14 @@ CFG = {
          'whether the derived shared inputs and the exported tables (Mask, RMask, MaskUpto, RMaskUpto, Bit, RBit, BitWord) are '
          'unchanged; ref = the same call made alone on a private copy beforehand. Cases: every function id alone x every '
          'in-domain argument over a fixed small input set (exhaustive); mixed batches over ascending then random input sizes '
-         '(all functions / listed only / one package / two functions hammered); string-heavy batches around StrCmpUpto\'s alias. '
+         '(all functions / listed only / one package / two functions hammered; one batch in three mixes in out-of-range calls whose '
+         'recovered panic values are kept and rendered after the batch); ToStr on prefix views of the shared word arrays; string-heavy '
+         'batches around StrCmpUpto\'s alias; c19.BigKeys: 2^18 (thorough: up to 2^19) compact counter keys shared by the goroutines, digest of '
+         'FirstDiffBits/CountPrefixes vs the digest alone under GOMAXPROCS(1) (re-run by the harness under GOMAXPROCS 3/33/97). '
          'Every case runs in the ordinary and in the -race build. Non-trivial = at least 8 goroutines and at least one listed '
          'function; shape key = goroutines / repetitions / size classes / tree height / set of function ids; distinct = distinct (op,args,build)',
- 'assumptions': ['sizes as in C01-C17 (64*len(words) < 2^31, 8*len(key) < 2^31); every call is in the domain of its function',
+ 'assumptions': ['sizes as in C01-C17 (64*len(words) < 2^31, 8*len(key) < 2^31); calls are in the domain of their function, except the marked error-path '
+                 'batches: there the call panics (or not) deterministically and the recovered panic VALUE, rendered after the batch, is the result',
                  'the effect model is as good as the translator (harness/effects: SSA walk, root tracing through IndexAddr/FieldAddr/'
                  'Slice/Phi/Convert/unsafe/uintptr/loads, summaries through calls and closures) and its allow-list of read-only '
                  'functions outside the module (bytes.Compare/Equal, strings.*, strconv.*, math/bits.*, fmt.Sprint*/Errorf, runtime.KeepAlive, reflect.ValueOf/TypeOf/Value.Kind/Len/Index/Interface, '
